@@ -55,6 +55,7 @@ def cases(draw, tier):
     async_mode = draw(st.sampled_from(["none", "none", "all", "mixed", "one"]))
     spec = draw(gen.machine_spec(max_states=4, max_extra=5, providers=provs, late=late, async_mode=async_mode, sends=draw(st.sampled_from([False, False, True])),
                                  shared_names=True, attach=("conv", "name", "func", "deco", "partial", "bound")))
+    spec["falsy_providers"] = [p for p in provs if p.startswith("l") and draw(st.integers(0, 4)) == 0]
     is_async = gen.is_async_spec(spec)
     cfg = {"rtc": True if is_async else draw(st.sampled_from([True, True, False])), "allow": draw(st.booleans()),
            "driver": draw(st.sampled_from(["sync", "loop"])), "activate": draw(st.booleans()), "late": list(late)}
